@@ -70,6 +70,8 @@ Print Assumptions C13_cfg_contains_surface_execution.
    compound ones as read-modify-write with the OLD VALUE OF THE TARGET AS LEFT
    OPERAND, for an arbitrary value type V, an arbitrary meaning [bop] of the
    twelve operators (none assumed commutative) and of literals [num].
+   The access list of a target holds index expressions and component accesses
+   ([EField], meaning [fld]: fourth audit), in any number and order.
    [parse_substitution] mirrors, builder call by builder call, what
    ast_shortcuts.rs (assign_with_op_shortcut, plusplus, subsub) builds; it means
    the same as the source form, in every store.
@@ -86,8 +88,8 @@ Print Assumptions C13_cfg_contains_surface_execution.
    (lifteng.forms_compare) are one comparison. *)
 Theorem C13_compound_mirror_sem :
   forall (N V : Type) (HN : EqDecision N) (HV : EqDecision V)
-         (bop : binop -> V -> V -> V) (num : nat -> V) (s : cstmt N) (st : store N V),
-  exec_stmt bop num (parse_substitution s) st = exec_stmt bop num s st.
+         (bop : binop -> V -> V -> V) (num : nat -> V) (fld : N -> V) (s : cstmt N) (st : store N V),
+  exec_stmt bop num fld (parse_substitution s) st = exec_stmt bop num fld s st.
 Proof. exact (@parse_substitution_sem). Qed.
 Print Assumptions C13_compound_mirror_sem.
 
@@ -96,14 +98,14 @@ Print Assumptions C13_compound_mirror_sem.
    means something else in some store *)
 Example C13_swapped_operands_differ :
   exists (bop : binop -> nat -> nat -> nat) (num : nat -> nat) (st : store nat nat) (e : ex nat),
-    exec_stmt bop num (CAssign 0 [] (EInfix Sub e (EVar 0 []))) st 0 []
-    <> exec_stmt bop num (COpAssign Sub 0 [] e) st 0 [].
+    exec_stmt bop num (fun _ => 0) (CAssign 0 [] (EInfix Sub e (EVar 0 []))) st 0 []
+    <> exec_stmt bop num (fun _ => 0) (COpAssign Sub 0 [] e) st 0 [].
 Proof. exact swapped_operands_differ. Qed.
 
 Example C13_plus_two_differs :
   exists (bop : binop -> nat -> nat -> nat) (num : nat -> nat) (st : store nat nat),
-    exec_stmt bop num (CAssign 0 [] (EInfix Add (EVar 0 []) (ENum 2))) st 0 []
-    <> exec_stmt bop num (CInc 0 []) st 0 [].
+    exec_stmt bop num (fun _ => 0) (CAssign 0 [] (EInfix Add (EVar 0 []) (ENum 2))) st 0 []
+    <> exec_stmt bop num (fun _ => 0) (CInc 0 []) st 0 [].
 Proof. exact plus_two_differs. Qed.
 
 (* non-vacuity of the surface semantics: a `for` loop whose second iteration
@@ -197,32 +199,55 @@ Print Assumptions C13_liftfull_cfg_contains_source.
    the body has such statements (flag MD of the model driver; evidence
    liftfull.statements_sharing_a_meta).
 
-   (1) For a [key] that tells the statement metas of the body apart
-   (Spec.LiftFullSpec.key_injective_on; such keys exist:
-   C13_positional_key_injective), the containment holds and an item of the graph has the
-   id of a source statement exactly when it has its META: the trace / walk of ids IS
-   a trace / walk of metas. *)
-Require Spec.LiftFullSpec Proofs.LiftFullC13.
+   (1) Fourth audit.  The theorem that stood here (`.._injective_key`) was of restatement
+   grade: its first conjunct was C13_liftfull_cfg_contains_source verbatim, its second the
+   hypothesis composed with C04's meta provenance; nothing in it mentioned trace or walk.
+   It is replaced by a statement that JOINS the content-level provenance with the ids the
+   trace and the walk are made of.  For a body in which no two statements that become IR
+   statements share a meta (decided by Model.LiftFullReport.stmt_metas_distinct_b:
+   C13_stmt_metas_distinct_b_sound; evaluated on every definition, flag MD) and a [key] that
+   tells the statement metas apart (C13_positional_key_injective: the key of the check):
+   the walk of the graph seen through [skel_block key] contains the execution of the body
+   seen through [skel key], AND whenever an IR statement x of the graph carries the id of a
+   statement s' of the renamed body, x IS the image of s' (what the mirror's own
+   per-statement lifting function LiftFull.lift_stmt - the mirror of
+   intermediate_representation/lifting.rs, tied by the liftfull stage - makes of s').  So
+   each id the walk meets names one source statement and one IR statement, the latter the
+   image of the former: "the statements the source executes are, in the same order, the
+   statements the walk meets" holds at the level of content, not only of metas.
+   For bodies WITH statements that share a meta (about 60 % of the generated definitions)
+   the join is not proved: there the by-meta containment and the positional Forall2 of
+   C13_liftfull_content_provenance are two facts (open statement in the evidence). *)
+Require Spec.LiftFullSpec Proofs.LiftFullC13 Model.LiftFullReport.
 
-Theorem C13_liftfull_cfg_contains_source_injective_key : forall key kind params pfile ploc body r,
+Theorem C13_liftfull_walk_statements_are_images : forall key kind params pfile ploc body r,
   Model.LiftFull.try_lift_impl kind params pfile ploc body = Ok r ->
+  NoDup (map Model.Ast.stmt_meta (Model.LiftFull.lifted_stmts body)) ->
   Spec.LiftFullSpec.key_injective_on key body ->
-  (forall ds, exists n0, forall n, n0 <= n ->
-     trace (Model.LiftFull.skel key body) ds
-     `prefix_of` walk n (map (Model.LiftFull.skel_block key) (Model.LiftFull.xc_blocks (Model.LiftFull.l_cfg r))) ds) /\
-  (forall x s,
-     In x (Model.LiftFull.graph_stmts (Model.LiftFull.xc_blocks (Model.LiftFull.l_cfg r))) ->
-     In s (Model.LiftFull.lifted_stmts body) ->
-     key (Model.LiftFull.xstmt_meta x) = key (Model.LiftFull.lift_meta (Model.Ast.stmt_meta s)) ->
-     Model.LiftFull.xstmt_meta x = Model.LiftFull.lift_meta (Model.Ast.stmt_meta s)).
-Proof. exact Proofs.LiftFullC13.liftfull_contains_source_injective_key. Qed.
-Print Assumptions C13_liftfull_cfg_contains_source_injective_key.
+  exists body',
+    Model.LiftFull.ensure_unique_variables params pfile ploc body = Ok (body', Model.LiftFull.l_reports r) /\
+    Spec.LiftFullSpec.renamed_only body body' /\
+    (forall ds, exists n0, forall n, n0 <= n ->
+       trace (Model.LiftFull.skel key body) ds
+       `prefix_of` walk n (map (Model.LiftFull.skel_block key) (Model.LiftFull.xc_blocks (Model.LiftFull.l_cfg r))) ds) /\
+    (forall x s',
+       In x (Model.LiftFull.graph_stmts (Model.LiftFull.xc_blocks (Model.LiftFull.l_cfg r))) ->
+       In s' (Model.LiftFull.lifted_stmts body') ->
+       key (Model.LiftFull.xstmt_meta x) = key (Model.LiftFull.lift_meta (Model.Ast.stmt_meta s')) ->
+       Spec.LiftFullSpec.image (Model.LiftFull.xc_decls (Model.LiftFull.l_cfg r)) s' x).
+Proof. exact Proofs.LiftFullC13.liftfull_walk_statements_are_images. Qed.
+Print Assumptions C13_liftfull_walk_statements_are_images.
+
+Theorem C13_stmt_metas_distinct_b_sound : forall body,
+  Model.LiftFullReport.stmt_metas_distinct_b body = true ->
+  NoDup (map Model.Ast.stmt_meta (Model.LiftFull.lifted_stmts body)).
+Proof. exact Proofs.LiftFullC13.stmt_metas_distinct_b_sound. Qed.
+Print Assumptions C13_stmt_metas_distinct_b_sound.
 
 (* such a key: the position of the first statement of the body that carries the meta
    (Model.LiftFullReport.positional_key) - the key the model driver of the check uses for the
    skeleton cross-check and for the trace / walk oracle on content-carrying definitions, so the
    hypothesis above holds on every explored case by this theorem *)
-Require Model.LiftFullReport.
 Theorem C13_positional_key_injective : forall body,
   Spec.LiftFullSpec.key_injective_on (Model.LiftFullReport.positional_key body) body.
 Proof. exact Proofs.LiftFullC13.positional_key_injective_on. Qed.
@@ -234,8 +259,10 @@ Print Assumptions C13_positional_key_injective.
    IR statements have, in order, the same kinds and the same metas:
    Spec.LiftFullSpec.renamed_only).  The IR statements of the graph, read block by
    block, are in one-to-one, ORDER-PRESERVING correspondence (Forall2) with the
-   statements of body' that are not blocks, each the [image] of its statement: what
-   intermediate_representation/lifting.rs makes of that statement (same kind, lifted
+   statements of body' that are not blocks, each the [image] of its statement: what the
+   MIRROR's per-statement function LiftFull.lift_stmt (the mirror of
+   intermediate_representation/lifting.rs; that it IS that code is the liftfull stage's
+   text comparison, not this theorem) makes of that statement (same kind, lifted
    names and expressions with their metas, operands in order; for `while` / `if` the
    branch statement with the lifted condition), up to the false target filled in by
    complete_basic_block and the type filled in by propagate_types.  This is the
